@@ -429,7 +429,6 @@ theorem sum_k_ge {P : List SegOut} {o : SegOut} (ho : o ∈ P) : o.k ≤ (P.map 
 
 /-- **The table built from an admissible plan is a well-formed forest.** -/
 theorem WF_planTable {t : Table} (hw : WF t) {rk : Int → Nat}
-    (hrk : ∀ n ∈ t, n.parent < 0 ∨ (n.parent ∈ ids t ∧ rk n.parent < rk n.id))
     {P : List SegOut} (h : PlanOK t rk P) : WF (planTable t P) := by
   have hnd := ids_planTable_nodup hw h
   let M : Nat := 1 + (P.map (·.k)).sum
@@ -518,7 +517,7 @@ theorem WF_resampleStruct {t : Table} (hw : WF t) (cnt : List Int → Option Nat
   obtain ⟨rk, hrk, _⟩ := WF_rank_le hw
   have hok := planOf_ok hw hrk cnt
   rw [resampleStruct_eq, dedupById_of_nodup _ (ids_planTable_nodup hw hok)]
-  exact WF_classify (WF_planTable hw hrk hok)
+  exact WF_classify (WF_planTable hw hok)
 
 theorem resampleStruct_eq' {t : Table} (hw : WF t) (cnt : List Int → Option Nat) :
     resampleStruct t cnt = classify (planTable t (planOf t cnt)) := by
